@@ -2402,7 +2402,7 @@ def run(tier):
             "`transpose` <-> domain/image swapped, `injectify` <-> duplicate filter, `_sorted` <-> sort_indices() (transposes are sorted by construction), "
             "adjactors passed in order (base.hpp RenderType documentation)", 16)
     ck.rule("E1.render-roles", "on every exit a render function leaves |_domain_ptr| = Dom+1 and _num_nodes_image = Img of the rendered relation: (Dom(adj1), Img(adjN)) "
-            "or, transposed, (Img(adjN), Dom(adj1)); two exits never disagree; DynamicGraph::compose(adj) leaves (Dom(this), Img(adj)) (breaks for rectangular adjactors)", 9)
+            "or, transposed, (Img(adjN), Dom(adj1)); two exits never disagree; DynamicGraph::compose(adj) leaves (Dom(this), Img(adj)); the four DynamicGraph render functions likewise (breaks for rectangular adjactors)", 13)
     ck.rule("E2.coverage", "an array handed to the result is assigned on its whole extent on every path (loops over the extent, terminal offsets, zero-fill + prefix sum); "
             "otherwise a tail stays uninitialised for some size", 21)
     ck.rule("E3.two-pass", "the counting pass and the filling pass of a render function traverse the same iteration space with the same filter "
